@@ -13,3 +13,11 @@ package jitdec
 //@ datainv stack_ep_offset props C07: _EpOffset == offsetof(_Stack, ep)
 //@ datainv stack_size props C07: _StackSize == sizeof(_Stack)
 //@ datainv ptr_bytes props C07: _PtrBytes == 8 && _PTR_SIZE == 64
+
+// C10: the argument pointer bitmap handed to the loader (it becomes the GC stack map of
+// every generated decoder frame) must be the pointer map of the _Decoder signature, word
+// for word, and must cover exactly the _FP_args bytes of the argument spill area.  A wrong
+// bit hides a live pointer from, or shows a non-pointer to, the garbage collector.
+//@ datainv argptrs_decoder props C10: len(initval(argPtrs)) == argwords(_Decoder) && _FP_args == 8 * argwords(_Decoder) && (forall i int :: (0 <= i && i < argwords(_Decoder)) ==> initval(argPtrs)[i] == ptrword(_Decoder, i))
+//@ datainv localptrs_decoder props C10: len(initval(localPtrs)) == 0 && len(initval(localPtrs_generic)) == 0
+//@ datainv argptrs_generic props C10: 8 * len(initval(argPtrs_generic)) == _VD_args && initval(argPtrs_generic)[0] == true
